@@ -113,11 +113,21 @@ def hypotheses(cap):
 
 
 def run_histories(tier, rep, ds, salt=0):
-    n_rand, per_fam = (120, 8) if tier == 'quick' else (6000, 250)
+    n_rand, per_fam = (120, 8) if tier == 'quick' else (3000, 120)
     base = core.seed() * 1000003 + 4242 + salt
     cases = [gen.gen_case(base + i, gen.DEFAULT_PROFILE, dirsize=ds, p_fail=0.15, p_clean=0.05, versions_pool=gen.VERSION_POOL,
                           min_builds=3, max_builds=6) for i in range(n_rand)]
     cases += gen.gen_scenario_cases(core.seed() * 31 + 404 + salt, per_fam, ds, gen.SCENARIOS + [gen.scen_cache_subdir])
+    problems = []
+    # in slices, so that the recorded trees of tens of thousands of commits are never all in memory
+    for lo in range(0, len(cases), 1500):
+        problems += _judge(rep, cases[lo:lo + 1500])
+        if any('cannot be observed' in q['what'] for q in problems):
+            break
+    return problems
+
+
+def _judge(rep, cases):
     caps_per_case = core.pmap(_worker, cases)
     caps, problems = [], []
     for c, cc in zip(cases, caps_per_case):
